@@ -9,7 +9,7 @@ KERNEL_NEXT_EVENT = [U("Node.decide_next_event"), U("Node.update_next_end_servic
                      U("Node.update_next_end_service_without_server")]
 
 PROPS = {
-    "C01": dict(units=[U("ExitNode.accept")]),
+    "C01": dict(units=[U("ExitNode.accept"), U("Node.accept")]),
     "C02": dict(units=[U("Simulation.find_next_active_node"), U("ArrivalNode.find_next_event_date")] + KERNEL_NEXT_EVENT),
     "C04": dict(units=[U("Node.find_free_server")]),
     "C05": dict(units=[U("Node.find_free_server"), U("Node.choose_next_customer")]),
